@@ -36,9 +36,11 @@ type Goroutine struct {
 	cur     *Frame
 	timer   *Timer // pseudo-goroutine: an armed timer
 	blockFr *Frame // frame of the operation it is blocked in (for reports)
+	vc      vclock
 }
 
 type Timer struct {
+	vc    vclock
 	id    int
 	armed bool
 	fn    Value
@@ -46,6 +48,7 @@ type Timer struct {
 }
 
 type mutexState struct {
+	vc      vclock
 	held    bool
 	readers int
 	owner   *Goroutine
@@ -69,6 +72,8 @@ type Sched struct {
 	main     *Goroutine
 	ended    bool
 	steps    int
+	race     *raceState
+	wgVC     map[*Value]*vclock
 }
 
 func (s *Sched) traceStrings() []string { return s.trace }
@@ -199,6 +204,7 @@ func (s *Sched) transfer(g *Goroutine, next *Goroutine) {
 		t := next.timer
 		t.armed = false
 		ng := s.newG(fmt.Sprintf("timer%d", t.id))
+		ng.vc = vcCopy(t.vc)
 		fn := t.fn
 		go s.body(ng, func() { s.c.callValue(nil, fn, nil, nil) })
 		s.note("fire:t%d->g%d", t.id, ng.id)
@@ -367,6 +373,8 @@ func (c *Ctx) spawn(fr *Frame, fv Value, args []Value, call *ssa.CallCommon) {
 		name = cl.fn.Name()
 	}
 	g := s.newG(name)
+	g.vc = vcCopy(s.vcOf(s.cur))
+	s.tick(s.cur)
 	go s.body(g, func() { c.callValue(nil, fv, args, call) })
 	s.note("g%d:go g%d(%s)", s.cur.id, g.id, name)
 	s.point(fr, "go")
@@ -391,6 +399,7 @@ func (s *Sched) lock(fr *Frame, k *Value, how string) {
 			s.block(fr, func() bool { return !m.held }, s.lockName(fr, "RLock"))
 		}
 		m.readers++
+		s.acquire(g, m.vc)
 		return
 	}
 	if m.held || m.readers > 0 {
@@ -398,6 +407,7 @@ func (s *Sched) lock(fr *Frame, k *Value, how string) {
 		s.block(fr, func() bool { return !m.held && m.readers == 0 }, s.lockName(fr, "Lock"))
 	}
 	m.held, m.owner = true, g
+	s.acquire(g, m.vc)
 }
 
 func (s *Sched) lockName(fr *Frame, how string) string {
@@ -420,6 +430,7 @@ func (s *Sched) unlock(fr *Frame, k *Value, how string) {
 			panic(pathEnd{"panic"})
 		}
 		m.readers--
+		s.release(s.cur, &m.vc)
 		return
 	}
 	if !m.held {
@@ -427,6 +438,7 @@ func (s *Sched) unlock(fr *Frame, k *Value, how string) {
 		panic(pathEnd{"panic"})
 	}
 	m.held, m.owner = false, nil
+	s.release(s.cur, &m.vc)
 }
 
 func (s *Sched) tryLock(fr *Frame, k *Value) bool {
@@ -435,13 +447,25 @@ func (s *Sched) tryLock(fr *Frame, k *Value) bool {
 		return false
 	}
 	m.held, m.owner = true, s.cur
+	s.acquire(s.cur, m.vc)
 	return true
 }
 
 func (s *Sched) wakeWG(k *Value) {}
 
+func (s *Sched) wgClock(k *Value) *vclock {
+	if s.wgVC == nil {
+		s.wgVC = map[*Value]*vclock{}
+	}
+	if s.wgVC[k] == nil {
+		s.wgVC[k] = &vclock{}
+	}
+	return s.wgVC[k]
+}
+
 func (s *Sched) waitWG(fr *Frame, k *Value) {
 	s.block(fr, func() bool { return s.c.wg[k] == 0 }, "WaitGroup.Wait")
+	s.acquire(s.cur, *s.wgClock(k))
 }
 
 // ---------------------------------------------------------------------------
@@ -465,6 +489,8 @@ func (s *Sched) send(fr *Frame, ch *Chan, v Value) {
 			}
 		}
 		ch.buf = append(ch.buf, v)
+		ch.vcs = append(ch.vcs, vcCopy(s.vcOf(s.cur)))
+		s.tick(s.cur)
 		return
 	}
 	// unbuffered: offer the value and wait until a receiver has taken it
@@ -472,6 +498,8 @@ func (s *Sched) send(fr *Frame, ch *Chan, v Value) {
 		s.block(fr, func() bool { return !ch.offered }, s.chanName(fr, "send"))
 	}
 	ch.offered, ch.offer, ch.taken = true, v, false
+	ch.offerVC = vcCopy(s.vcOf(s.cur))
+	s.tick(s.cur)
 	s.block(fr, func() bool { return ch.taken }, s.chanName(fr, "send (waiting for a receiver)"))
 	ch.taken = false
 }
@@ -489,13 +517,19 @@ func (s *Sched) takeRecv(ch *Chan, elem types.Type) (Value, bool) {
 	if len(ch.buf) > 0 {
 		v := ch.buf[0]
 		ch.buf = ch.buf[1:]
+		if len(ch.vcs) > 0 {
+			s.acquire(s.cur, ch.vcs[0])
+			ch.vcs = ch.vcs[1:]
+		}
 		return v, true
 	}
 	if ch.offered {
 		v := ch.offer
 		ch.offered, ch.offer, ch.taken = false, nil, true
+		s.acquire(s.cur, ch.offerVC)
 		return v, true
 	}
+	s.acquire(s.cur, ch.closeVC)
 	return s.c.zero(elem), false // closed
 }
 
@@ -514,6 +548,8 @@ func (s *Sched) recv(fr *Frame, ch *Chan, elem types.Type) (Value, bool) {
 
 func (s *Sched) closeChan(fr *Frame, ch *Chan) {
 	ch.closed = true
+	ch.closeVC = vcCopy(s.vcOf(s.cur))
+	s.tick(s.cur)
 }
 
 func (s *Sched) canSend(ch *Chan) bool {
@@ -595,8 +631,12 @@ func (s *Sched) selectOp(fr *Frame, in *ssa.Select) Value {
 		v := copyVal(c.get(fr, st.Send))
 		if ch.cap > 0 {
 			ch.buf = append(ch.buf, v)
+			ch.vcs = append(ch.vcs, vcCopy(s.vcOf(s.cur)))
+			s.tick(s.cur)
 		} else {
 			ch.offered, ch.offer, ch.taken = true, v, false
+			ch.offerVC = vcCopy(s.vcOf(s.cur))
+			s.tick(s.cur)
 			s.block(fr, func() bool { return ch.taken }, s.chanName(fr, "send (waiting for a receiver)"))
 			ch.taken = false
 		}
@@ -627,7 +667,8 @@ func inAfterFunc(c *Ctx, fr *Frame, fn *ssa.Function, a []Value) Value {
 	cell := new(Value)
 	tt := c.w.namedType("time", "Timer")
 	*cell = c.zero(tt)
-	t := &Timer{id: len(s.timers), armed: true, fn: a[1], cell: cell}
+	t := &Timer{id: len(s.timers), armed: true, fn: a[1], cell: cell, vc: vcCopy(s.vcOf(s.cur))}
+	s.tick(s.cur)
 	s.timers = append(s.timers, t)
 	s.byCell[cell] = t
 	s.note("g%d:arm t%d", s.cur.id, t.id)
@@ -654,6 +695,8 @@ func inTimerReset(c *Ctx, fr *Frame, fn *ssa.Function, a []Value) Value {
 	}
 	was := t.armed
 	t.armed = true
+	t.vc = vcCopy(c.sched.vcOf(c.sched.cur))
+	c.sched.tick(c.sched.cur)
 	c.sched.note("g%d:reset t%d", c.sched.cur.id, t.id)
 	return c.tb.Bool(was)
 }
